@@ -198,14 +198,14 @@ def _judge(pc: int, bs: List[int], info, fc: int, fz: int, nxt: int, V, k: int, 
     def probe(n):
         probes[n] = probes.get(n, 0) + 1
 
+    if op in (0x10, 0x11):
+        probe("indirect_jump")
     if not br:
         if op == 0xFE:
             return          # IR: judged through its pushed return address (pairing)
         if nxt != fall:
             V("silent_transfer", k, f"{_hex(bs[:ln])} at {pc:#x} reports no branch but execution continued at {nxt:#x} "
               f"(fall-through {fall:#x})", opcode=f"{op:02X}")
-            if op in (0x10, 0x11):
-                probe("indirect_jump")
         return
     if "UnresolvedBranch" in kinds or "FunctionReturn" in kinds:
         return
